@@ -68,7 +68,9 @@ namespace pika::threads::coroutines::detail {
                 reset_self_on_exit on_exit(&self, old_self);
                 try
                 {
+                    PIKA_VERIF_POST("co.enter", m_thread_id.get(), 0, 0);
                     result_last = m_fun(*this->args());
+                    PIKA_VERIF_POST("co.return", m_thread_id.get(), static_cast<int>(result_last.first), 0);
                     PIKA_ASSERT(
                         result_last.first == threads::detail::thread_schedule_state::terminated);
                     status = super_type::ctx_exited_return;
